@@ -4,6 +4,7 @@ import (
 	"context"
 	"errors"
 	"fmt"
+	"io"
 	"sort"
 	"strings"
 	"sync"
@@ -493,6 +494,9 @@ func checkC15(t *testing.T, env *report.Env, rep *report.Report) {
 		return
 	}
 	c15Sequential(env, rep)
+	if env.Shard == 0 {
+		closerShapes(rep)
+	}
 	bound := 2
 	if env.Thorough() {
 		bound = 4
@@ -502,4 +506,63 @@ func checkC15(t *testing.T, env *report.Env, rep *report.Report) {
 	runSched(t, env, rep, map[string]bool{"C15": true}, "sched-updater-on-looked-up-name", pick(lookupScenarios(), "S7 "), 2, 3)
 	// an updater created on a cached name while the poll that would expire the name is in flight
 	runSched(t, env, rep, map[string]bool{"C15": true}, "sched-updater-vs-expiring-poll", pick(lookupScenarios(), "S11 "), 2, 3)
+}
+
+// closerShapes: "a replaced value that implements io.Closer is closed exactly once" whatever the
+// updater's type parameter is - a pointer type, io.Closer itself, or an application interface whose
+// values happen to be closers.
+type keyer interface{ Key() string }
+
+func (b *built) Key() string { return b.from }
+
+func closerShapes(rep *report.Report) {
+	sec := rep.Add(&report.Section{Name: "closer-values-by-type-parameter", Engine: "enum", Exhaustive: true, Extra: map[string]int64{},
+		Rule: "updaters with type parameter {*T, io.Closer, an application interface} whose values implement io.Closer: NewUpdater, install, Get, install, Get: each replaced value closed exactly once, the current one never; non-trivial = all"})
+	run := func(kind string, get func() *built, mk func(st *setec.Store, log *builderLog) error) {
+		sec.Evaluations++
+		sec.Nontrivial++
+		svc := NewSvc()
+		svc.Put("d")
+		st, err := setec.NewStore(context.Background(), setec.StoreConfig{Client: svc, Secrets: []string{"d"}, PollInterval: -1, Logf: func(string, ...any) {}})
+		if err != nil {
+			panic(err)
+		}
+		defer st.Close()
+		log := &builderLog{}
+		if err := mk(st, log); err != nil {
+			rep.Violate(sec.Name, "closer-shape/newupdater: "+kind, kind+": NewUpdater: "+err.Error(), nil)
+			return
+		}
+		for i := 0; i < 2; i++ {
+			svc.Put("d")
+			st.Refresh(context.Background())
+			cur := get()
+			for _, b := range log.all {
+				want := 1
+				if b == cur {
+					want = 0
+				}
+				if b.closed != want {
+					rep.Violate(sec.Name, "closer-shape/close-count: "+kind, fmt.Sprintf("updater with type parameter %s: after install %d and Get, value #%d (from %q) has been closed %d times, want %d", kind, i+1, b.id, b.from, b.closed, want), nil)
+					return
+				}
+			}
+		}
+	}
+	var up *setec.Updater[*built]
+	run("*built", func() *built { return up.Get() }, func(st *setec.Store, log *builderLog) (err error) {
+		up, err = setec.NewUpdater(context.Background(), st, "d", log.build)
+		return
+	})
+	var uc *setec.Updater[io.Closer]
+	run("io.Closer", func() *built { return uc.Get().(*built) }, func(st *setec.Store, log *builderLog) (err error) {
+		uc, err = setec.NewUpdater(context.Background(), st, "d", func(bs []byte) (io.Closer, error) { return log.build(bs) })
+		return
+	})
+	var uk *setec.Updater[keyer]
+	run("an application interface", func() *built { return uk.Get().(*built) }, func(st *setec.Store, log *builderLog) (err error) {
+		uk, err = setec.NewUpdater(context.Background(), st, "d", func(bs []byte) (keyer, error) { return log.build(bs) })
+		return
+	})
+	sec.States, sec.Transitions = sec.Evaluations, sec.Evaluations
 }
